@@ -1,6 +1,7 @@
 import EqsigVerif.Prelude.Wire
 import EqsigVerif.Model.Single
 import EqsigVerif.Model.Multiple
+import EqsigVerif.Model.SpectraFns
 /-! throw-away evaluator used by `validate.py`: `lake env lean --run Scratch.lean < requests > responses` -/
 open EqsigVerif EqsigVerif.Wire
 open EqsigVerif.Model
@@ -79,20 +80,20 @@ def singleHandlers : List (String × Handler) := [
     | _ => throw "args")
 ]
 
-/-- signals travel as one token list with `;` separators: `1 2 3 ; 4 5 6` -/
-def splitSemi : List String → List (List String)
-  | [] => [[]]
+/-- rows travel in one field, each row introduced by the marker token `r`: `r 1 2 3 r 4 5 6`; `r` alone = one empty row -/
+def splitRows : List String → List (List String)
+  | [] => []
   | t :: ts =>
-    match splitSemi ts with
-    | [] => [[t]]
-    | g :: gs => if t = ";" then [] :: g :: gs else (t :: g) :: gs
+    let rest := splitRows ts
+    if t = "r" then
+      -- tokens up to the next marker belong to this row
+      (ts.takeWhile (· ≠ "r")) :: rest
+    else rest
 
-/-- empty token list = no signals -/
-def parseSignals (l : List String) : Except String (List (List Rat)) :=
-  if l.isEmpty then pure [] else (splitSemi l).mapM rats
+def parseSignals (l : List String) : Except String (List (List Rat)) := (splitRows l).mapM rats
 
 def sepSignals (ss : List (List Rat)) : List String :=
-  " ; ".intercalate (ss.map (fun s => " ".intercalate (outRats s))) |> fun x => [x]
+  [" ; ".intercalate (ss.map (fun s => " ".intercalate (outRats s)))]
 
 def multipleHandlers : List (String × Handler) := [
   ("section_average", fun
@@ -134,7 +135,57 @@ def multipleHandlers : List (String × Handler) := [
     | _ => throw "args")
 ]
 
-def table : List (String × Handler) := singleHandlers ++ multipleHandlers
+def out3 : List Rat × List Rat × List Rat → List (List String)
+  | (a, b, c) => [outRats a, outRats b, outRats c]
+
+def spectraHandlers : List (String × Handler) := [
+  ("pseudo", fun
+    | [twoPi, dt, motion, periods, u] => do
+      let twoPi ← rat1 twoPi; let dt ← rat1 dt; let motion ← rats motion; let periods ← rats periods
+      let u ← parseSignals u
+      pure (ofExcept out3 (SpectraFns.pseudoSpectra twoPi motion dt periods u))
+    | _ => throw "args"),
+  ("true", fun
+    | [dt, motion, periods, u, v, a] => do
+      let dt ← rat1 dt; let motion ← rats motion; let periods ← rats periods
+      let u ← parseSignals u; let v ← parseSignals v; let a ← parseSignals a
+      pure (ofExcept out3 (SpectraFns.trueSpectra motion dt periods u v a))
+    | _ => throw "args"),
+  ("gen_input", fun
+    | [dt, ratio, rt] => do
+      let dt ← rat1 dt; let ratio ← rat1 ratio; let rt ← rats rt
+      pure (ofExcept (fun (r : SpectraFns.SpecInput Rat) => match r with
+          | .raw => [["raw"]]
+          | .interp t => [["interp", showRat t]]) (SpectraFns.genSpectrumInput rt dt ratio))
+    | _ => throw "args"),
+  ("uke", fun
+    | [v] => do
+      let v ← parseSignals v
+      pure (.ok [outRats (SpectraFns.respUkeSpectrum v)])
+    | _ => throw "args"),
+  ("input_energy", fun
+    | [dt, values, v] => do
+      let dt ← rat1 dt; let values ← rats values; let v ← parseSignals v
+      pure (.ok [outRats (SpectraFns.inputEnergySpectrum values v dt)])
+    | _ => throw "args"),
+  ("input_energy_series", fun
+    | [dt, values, v] => do
+      let dt ← rat1 dt; let values ← rats values; let v ← parseSignals v
+      pure (.ok [sepSignals (SpectraFns.inputEnergySeries values v dt)])
+    | _ => throw "args"),
+  ("asi", fun
+    | [c, g, ps] => do
+      let c ← rat1 c; let g ← rat1 g; let ps ← rats ps
+      pure (ofExcept (fun r => [[showRat r]]) (SpectraFns.asi c g ps))
+    | _ => throw "args"),
+  ("vsi", fun
+    | [c, ps] => do
+      let c ← rat1 c; let ps ← rats ps
+      pure (ofExcept (fun r => [[showRat r]]) (SpectraFns.vsi c ps))
+    | _ => throw "args")
+]
+
+def table : List (String × Handler) := singleHandlers ++ multipleHandlers ++ spectraHandlers
 
 def dispatch (line : String) : String :=
   match line.splitOn "|" with
